@@ -150,3 +150,21 @@ def cases(rng, tier):
                     rv = (v >> (w - q)) << (w - q)       # no neighbour above: the block itself
                 ops.append(["remove", max(0, rv), q])
         yield ("c20_history", [ver, v, bp, ops], "history")
+
+
+# ---- requests for more than a thousand subnets at once (a work-list threshold or batch size in extract_subnet or in the
+# cidr_merge / cidr_exclude it calls needs counts of this size)
+_cases_small_counts = cases
+
+
+def cases(rng, tier):
+    yield from _cases_small_counts(rng, tier)
+    for _ in range(4 if tier == "quick" else 60):
+        ver = rng.choice((4, 6))
+        w = gens.W[ver]
+        d = rng.choice((11, 12))
+        bp = w - d - rng.randint(0, 3)
+        v = rng.choice([0, (2 ** w - (1 << (w - bp))), (rng.getrandbits(w) >> (w - bp)) << (w - bp)])
+        c = rng.choice([1025, 1030, 1500, (1 << d) - 1])
+        ops = [["extract", bp + d, c], ["extract", bp + d, rng.choice([1, 3])], ["extract", bp + d - 1, 2]]
+        yield ("c20_history", [ver, v, bp, ops], "history_big_count")
